@@ -51,7 +51,14 @@ def Block.ofList : List Stmt → Block
   | [] => .nil
   | s :: ss => .cons s (Block.ofList ss)
 
-/-- a function: named arguments (and free variables) bound on entry, and a body -/
+/-- a function: named arguments and free variables, bound on entry, and a body.
+MODEL ASSUMPTION (checked by the harness, not provable here): `args` lists a FREE variable only if the
+body never binds that name at function level — Python makes any name that is assigned, a loop target or
+a `with … as` target a LOCAL of the compiled function, unbound on entry whatever global / closure
+variable / builtin of that name exists.  The decorator derives the set from `inspect.getclosurevars`
+(which reads `co_names`/`co_freevars`, so a rebound name never enters it); harness/c15.py re-derives it
+from CPython's own compilation of the rendered source and crosses every definedness pattern with
+locals named like builtins, module globals, closure variables, the function itself and its parameter. -/
 structure Func where
   args : List Name
   body : Block
